@@ -45,8 +45,17 @@ def run(ck):
   cqcheck.run_x(ck, ck.budget(200, 4000))
   n = ck.budget(150, 2500)
   made = semcheck.make_programs(ck, n, MASK)
-  made += semcheck.make_programs(ck, ck.budget(48, 720), None, {'templates': ['t_multivalued_calls', 't_nested_disjunction', 't_no_table_rule', 't_record_if', 't_unary_minus', 't_mixed_head']}, builder=templates.build)
-  jobs = [(pr.text(), [p.name for p in pr.preds]) for pr, _ in made]
+  made += semcheck.make_programs(ck, ck.budget(48, 720), None, {'templates': ['t_multivalued_calls', 't_nested_disjunction', 't_no_table_rule', 't_record_if', 't_unary_minus', 't_mixed_head', 't_named_multibody']}, builder=templates.build)
+  # every third program spells its named arguments in a different order in every rule head and call: columns are
+  # identified by name, not by position
+  import random as _random
+  jobs = []
+  for i, (pr, _) in enumerate(made):
+    if i % 3 == 0:
+      pr.named_shuffled = True
+      jobs.append((pr.text(G.Printer(named_order_rng=_random.Random(ck.seed * 7919 + i), named_order_distinct=True)), [p.name for p in pr.preds]))
+    else:
+      jobs.append((pr.text(), [p.name for p in pr.preds]))
   reals = core.pmap(semcheck.job_real, jobs)
   for (pr, model), job, real in zip(made, jobs, reals):
     nonempty = 'result' in model and any(model['result'][p.name] for p in pr.preds if p.kind != 'facts')
